@@ -107,6 +107,8 @@ MObs(op) ==
          IN [closes |-> << >>, rd |-> TRUE, par |-> p, clean |-> TRUE, got |-> NoS, chain |-> << >>]
     [] op.op = "drop" ->
          [closes |-> MClose(op.s, own[op.s], cur[t], ref, mopen).closes, rd |-> TRUE, par |-> NoS, clean |-> TRUE, got |-> NoS, chain |-> << >>]
+    [] op.op = "drop2" ->     \* (the mechanism model does not order the nested close; only its final state is used)
+         [closes |-> << >>, rd |-> TRUE, par |-> NoS, clean |-> TRUE, got |-> NoS, chain |-> << >>]
     [] op.op = "exit" ->
          LET i == CHOOSE j \in DOMAIN stk[t] : stk[t][j].s = op.s /\ \A k \in DOMAIN stk[t] : stk[t][k].s = op.s => k <= j
          IN [closes |-> IF stk[t][i].dup THEN << >> ELSE MClose(op.s, cur[t], cur[t], ref, mopen).closes,
@@ -129,6 +131,10 @@ Pre(op) ==
   LET t == op.t IN
   CASE op.op = "new" -> cur[t] # 0 /\ n < MaxSpans /\ (op.pk = "of" => op.p \in Created /\ open[op.p] /\ own[op.p] = cur[t] /\ PH(op.p) > 0)
     [] op.op \in {"clone", "drop"} -> op.s \in Created /\ PH(op.s) > 0 /\ open[op.s]
+    \* drop2: the drop of s closes s, and user code inside a layer's on_close(s) drops a handle of y
+    [] op.op = "drop2" -> /\ op.s \in Created /\ op.y \in Created /\ op.s # op.y
+                          /\ PH(op.s) > 0 /\ PH(op.y) > 0 /\ open[op.s] /\ open[op.y]
+                          /\ Chain(op.s, open, [hc EXCEPT ![op.s] = @ - 1], ent) # << >>
     [] op.op = "enter" -> op.s \in Created /\ PH(op.s) > 0 /\ open[op.s]
     [] op.op = "exit" -> op.s \in Range(ent[t])
     [] op.op = "capture" -> trst[op.k] = "free"
@@ -142,6 +148,7 @@ Hazard(op) ==
   LET t == op.t IN
   CASE op.op = "exit" -> cur[t] # own[op.s]
     [] op.op = "drop" -> cur[t] # own[op.s] /\ par[op.s] # NoS
+    [] op.op = "drop2" -> (cur[t] # own[op.s] /\ par[op.s] # NoS) \/ (cur[t] # own[op.y] /\ par[op.y] # NoS)
     [] op.op = "tdrop" -> tr[op.k] # NoS /\ cur[t] # own[tr[op.k]] /\ par[tr[op.k]] # NoS
     [] OTHER -> FALSE
 
@@ -149,6 +156,13 @@ Hazard(op) ==
 Expected(op) ==
   LET t == op.t IN
   CASE op.op = "drop" -> Chain(op.s, open, [hc EXCEPT ![op.s] = @ - 1], ent)
+    \* s is reported closed, then y's whole close (and cascade) runs nested, then s is removed and its parents cascade
+    [] op.op = "drop2" ->
+         LET h1 == [hc EXCEPT ![op.s] = @ - 1, ![op.y] = @ - 1]
+             o1 == [open EXCEPT ![op.s] = FALSE]
+             Y == Chain(op.y, o1, h1, ent)
+             o2 == [x \in SpanIds |-> o1[x] /\ x \notin Range(Y)]
+         IN <<op.s>> \o Y \o Chain(par[op.s], o2, h1, ent)
     [] op.op = "exit" -> Chain(op.s, open, hc, [ent EXCEPT ![t] = RemoveLast(@, op.s)])
     [] op.op = "tdrop" -> IF tr[op.k] = NoS THEN << >> ELSE Chain(tr[op.k], open, [hc EXCEPT ![tr[op.k]] = @ - 1], ent)
     [] OTHER -> << >>
@@ -184,6 +198,9 @@ AEffect(op, obs) ==
     [] op.op = "drop" -> /\ hc' = [hc EXCEPT ![op.s] = @ - 1]
                          /\ open' = [s \in SpanIds |-> open[s] /\ s \notin Range(obs.closes)]
                          /\ UNCHANGED <<n, par, own, ent, tr, trst, cur>>
+    [] op.op = "drop2" -> /\ hc' = [hc EXCEPT ![op.s] = @ - 1, ![op.y] = @ - 1]
+                          /\ open' = [s \in SpanIds |-> open[s] /\ s \notin Range(obs.closes)]
+                          /\ UNCHANGED <<n, par, own, ent, tr, trst, cur>>
     [] op.op = "enter" -> ent' = [ent EXCEPT ![t] = Append(@, op.s)] /\ UNCHANGED <<n, par, own, open, hc, tr, trst, cur>>
     [] op.op = "exit" -> /\ ent' = [ent EXCEPT ![t] = RemoveLast(@, op.s)]
                          /\ open' = [s \in SpanIds |-> open[s] /\ s \notin Range(obs.closes)]
@@ -209,6 +226,9 @@ MEffect(op) ==
          /\ stk' = stk
     [] op.op = "clone" -> ref' = [ref EXCEPT ![op.s] = @ + 1] /\ UNCHANGED <<stk, mopen>>
     [] op.op = "drop" -> LET r == MClose(op.s, own[op.s], cur[t], ref, mopen) IN ref' = r.ref /\ mopen' = r.mopen /\ stk' = stk
+    [] op.op = "drop2" -> LET r1 == MClose(op.s, own[op.s], cur[t], ref, mopen)
+                              r2 == MClose(op.y, own[op.y], cur[t], r1.ref, r1.mopen)
+                          IN ref' = r2.ref /\ mopen' = r2.mopen /\ stk' = stk
     [] op.op = "enter" -> LET dup == \E i \in DOMAIN stk[t] : stk[t][i].s = op.s IN
                           /\ stk' = [stk EXCEPT ![t] = Append(@, [s |-> op.s, dup |-> dup])]
                           /\ ref' = IF dup THEN ref ELSE [ref EXCEPT ![op.s] = @ + 1]
